@@ -19,7 +19,7 @@ ALPHA = [97, 32, 44, 61, 34, 39, 92, NA]
 
 
 # ---------------------------------------------------------------- TLA+ generation
-def lp_module(name, maxlen, cross, emit=True):
+def lp_module(name, maxlen, cross, emit=True, thorough_pairs=False):
     L = ["---- MODULE %s ----" % name, "EXTENDS LineProtocol, Json"]
     L.append("Alpha == {97, SP, COMMA, EQ, DQ, SQ, BS, NA}")
     L.append("Txt(n) == {s \\in UNION {[1..k -> Alpha] : k \\in 1..n} : s[Len(s)] # BS}")
@@ -38,6 +38,13 @@ def lp_module(name, maxlen, cross, emit=True):
         '\\E v \\in TxtE(%d) : R(A, CfgNone, <<<<C, "str", v>>>>, 61, 0)' % maxlen,
         # all five positions together, short strings
         '\\E n \\in Txt(%d), tk \\in Txt(%d), tv \\in Txt(%d), fk \\in Txt(%d), fv \\in TxtE(%d) : tk # fk /\\ R(n, CfgSet(<<tk>>), <<<<tk, "str", tv>>, <<fk, "str", fv>>>>, 61, 0)' % ((cross,) * 5),
+    ] + ([
+        # pairs of positions with strings of up to two characters (thorough)
+        '\\E n \\in Txt(2), fv \\in TxtE(2) : R(n, CfgNone, <<<<C, "str", fv>>>>, 61, 0)',
+        '\\E tk \\in Txt(2), tv \\in Txt(2) : tk # C /\\ R(A, CfgSet(<<tk>>), <<<<tk, "str", tv>>, <<C, "int", 7>>>>, 61, 0)',
+        '\\E fk \\in Txt(2), fv \\in TxtE(2) : R(A, CfgNone, <<<<fk, "str", fv>>>>, 61, 0)',
+        '\\E tv \\in Txt(2), fk \\in Txt(2) : fk # B /\\ R(A, CfgSet(<<B>>), <<<<B, "str", tv>>, <<fk, "str", A>>>>, 61, 0)',
+    ] if thorough_pairs else []) + [
         # configurations: whitelist / defaults / overrides / non-string values / kinds / times
         '\\E dk \\in {"str", "int", "half", "bool"}, ov \\in BOOLEAN, ex \\in BOOLEAN, fk2 \\in {"str", "int", "half", "bool"}, cr \\in {0, 59, 60, 61, 119, 1700000000, 1700000059}, rs \\in {0, 1, 10, 60} :\n'
         '      LET dv == CASE dk = "str" -> <<97, SP>> [] dk = "int" -> 49 [] dk = "half" -> 8 [] dk = "bool" -> FALSE\n'
@@ -256,8 +263,10 @@ def judge(ctx, kind, traces, verdicts):
 def run(ctx):
     thorough = ctx.tier == "thorough"
     rnd = random.Random(ctx.seed)
-    maxlen, cross = (4, 2) if thorough else (3, 1)
-    res = tlc.run("MCLP", lp_cfg(), module_text=lp_module("MCLP", maxlen, cross), workers=1, timeout=3000, heap="8g")
+    # (cross = 2 would be 63^5 ~ 10^9 records: the joint family stays at single characters,
+    #  thorough adds all PAIRS of positions with strings up to two characters)
+    maxlen, cross = (4, 1) if thorough else (3, 1)
+    res = tlc.run("MCLP", lp_cfg(), module_text=lp_module("MCLP", maxlen, cross, thorough_pairs=thorough), workers=1, timeout=3000, heap="8g")
     ctx.model_must_hold("LineProtocol model", res)
     ctx.add_model_run("LineProtocol.tla/strings<=%d per position, cross<=%d" % (maxlen, cross), res)
     recs = [json.loads(p[1]) for p in res.prints if p[0] == "INIT"]
